@@ -44,12 +44,34 @@ Record R (s : sstate) (b : bb) : Prop := mkR {
              bb_raw b pk (safe_key cc) = Some r;
   R_ttl : Forall (fun e => 0 < fst (fst (snd e))) (bttl b);
   R_bsorted : parts_sorted (bdata b);
-  R_ssorted : parts_sorted (fst s)
+  R_ssorted : parts_sorted (fst s);
+  (* bolt keys are never empty; reference keys are never the reserved key *)
+  R_bkeys : forall pk k r, raw_lookup (bdata b) pk k = Some r -> k <> [];
+  R_skeys : forall pk cc r, raw_lookup (fst s) pk cc = Some r -> okcc cc
 }.
 
 Lemma R_init : R ([], 0) bb_init.
 Proof.
   constructor; cbn; try lia; try constructor; try (intros; discriminate); try apply parts_sorted_nil.
+Qed.
+
+Lemma raw_set_cases {V} (st : store V) pk cc r pk' cc' r' :
+  raw_lookup (set_row st pk cc r) pk' cc' = Some r' ->
+  ((pk', cc') = (pk, cc) /\ r' = r) \/ ((pk', cc') <> (pk, cc) /\ raw_lookup st pk' cc' = Some r').
+Proof.
+  intros H. destruct (lex_eqb pk' pk) eqn:E1; [destruct (lex_eqb cc' cc) eqn:E2|].
+  - apply lex_eqb_eq in E1, E2. subst. rewrite raw_set_same in H. inversion H. auto.
+  - apply lex_eqb_neq in E2. right. assert (N : (pk', cc') <> (pk, cc)) by congruence. rewrite raw_set_other in H by exact N. auto.
+  - apply lex_eqb_neq in E1. right. assert (N : (pk', cc') <> (pk, cc)) by congruence. rewrite raw_set_other in H by exact N. auto.
+Qed.
+
+Lemma raw_del_cases {V} (st : store V) pk cc pk' cc' r' : parts_sorted st ->
+  raw_lookup (del_row st pk cc) pk' cc' = Some r' -> raw_lookup st pk' cc' = Some r'.
+Proof.
+  intros S H. destruct (lex_eqb pk' pk) eqn:E1; [destruct (lex_eqb cc' cc) eqn:E2|].
+  - apply lex_eqb_eq in E1, E2. subst. rewrite raw_del_same in H by exact S. discriminate.
+  - apply lex_eqb_neq in E2. rewrite raw_del_other in H by (auto; congruence). exact H.
+  - apply lex_eqb_neq in E1. rewrite raw_del_other in H by (auto; congruence). exact H.
 Qed.
 
 Lemma live_agree s b pk cc : R s b -> okcc cc -> bb_live b pk cc = lookup (snd s) (fst s) pk cc.
@@ -79,7 +101,7 @@ Lemma R_set_row st now b pk cc r tt : R (st, now) b -> okcc cc ->
   Forall (fun e => 0 < fst (fst (snd e))) tt ->
   R (set_row st pk cc r, now) (mkBB (set_row (bdata b) pk (safe_key cc) r) tt (bnow b) (bnext_clean b)).
 Proof.
-  intros HR Hc Htt. destruct HR as [Hn H0 Hsub Hlive Httl Hbs Hss]. cbn in *.
+  intros HR Hc Htt. destruct HR as [Hn H0 Hsub Hlive Httl Hbs Hss Hbk Hsk]. cbn in *.
   constructor; cbn; auto.
   - intros pk' cc' r' Hc' Hb. unfold bb_raw in *. cbn in *.
     destruct (key_cases pk cc pk' cc' Hc Hc') as [E|[N1 N2]].
@@ -91,12 +113,18 @@ Proof.
     + rewrite raw_set_other in * by assumption. apply Hlive; assumption.
   - apply set_row_sorted. exact Hbs.
   - apply set_row_sorted. exact Hss.
+  - intros pk' k r' Hk. apply raw_set_cases in Hk. destruct Hk as [[E _]|[_ Hk]].
+    + inversion E; subst. apply safe_key_nonempty.
+    + eapply Hbk; eauto.
+  - intros pk' cc' r' Hk. apply raw_set_cases in Hk. destruct Hk as [[E _]|[_ Hk]].
+    + inversion E; subst. exact Hc.
+    + eapply Hsk; eauto.
 Qed.
 
 Lemma R_del_row st now b pk cc : R (st, now) b -> okcc cc ->
   R (del_row st pk cc, now) (mkBB (del_row (bdata b) pk (safe_key cc)) (bttl b) (bnow b) (bnext_clean b)).
 Proof.
-  intros HR Hc. destruct HR as [Hn H0 Hsub Hlive Httl Hbs Hss]. cbn in *.
+  intros HR Hc. destruct HR as [Hn H0 Hsub Hlive Httl Hbs Hss Hbk Hsk]. cbn in *.
   constructor; cbn; auto.
   - intros pk' cc' r' Hc' Hb. unfold bb_raw in *. cbn in *.
     destruct (key_cases pk cc pk' cc' Hc Hc') as [E|[N1 N2]].
@@ -108,6 +136,8 @@ Proof.
     + rewrite raw_del_other in * by assumption. apply Hlive; assumption.
   - apply del_row_sorted. exact Hbs.
   - apply del_row_sorted. exact Hss.
+  - intros pk' k r' Hk. apply raw_del_cases in Hk; auto. eapply Hbk; eauto.
+  - intros pk' cc' r' Hk. apply raw_del_cases in Hk; auto. eapply Hsk; eauto.
 Qed.
 
 Lemma exp_of_pos now ttl : 0 <= now -> 0 < ttl -> 0 < exp_of now ttl.
@@ -150,13 +180,13 @@ Qed.
 Lemma R_advance st now b d nc : R (st, now) b -> 0 <= d ->
   R (st, now + d) (mkBB (bdata b) (bttl b) (bnow b + d) nc).
 Proof.
-  intros HR Hd. destruct HR as [Hn H0 Hsub Hlive Httl Hbs Hss]. cbn in *.
+  intros HR Hd. destruct HR as [Hn H0 Hsub Hlive Httl Hbs Hss Hbk Hsk]. cbn in *.
   constructor; cbn; auto; try lia.
   intros pk cc r Hc Hs Hx. apply Hlive; auto. eapply expired_mono; eauto.
 Qed.
 
 Lemma R_next_clean s b nc : R s b -> R s (mkBB (bdata b) (bttl b) (bnow b) nc).
-Proof. intros [Hn H0 Hsub Hlive Httl Hbs Hss]. constructor; auto. Qed.
+Proof. intros [Hn H0 Hsub Hlive Httl Hbs Hss Hbk Hsk]. constructor; auto. Qed.
 
 (* the cleaner removes a data row only when the row carries exactly the (due) expiry of the index
    entry: such a row is expired, so no live row is ever lost *)
@@ -164,7 +194,7 @@ Lemma R_remove_key s b tk exp pk scc : R s b -> 0 < exp -> exp <= bnow b ->
   R s (bb_remove_key b tk (exp, pk, scc)).
 Proof.
   intros HR Hpos Hdue. unfold bb_remove_key. rewrite flag_cleaner_checks_expiry.
-  destruct HR as [Hn H0 Hsub Hlive Httl Hbs Hss].
+  destruct HR as [Hn H0 Hsub Hlive Httl Hbs Hss Hbk Hsk].
   destruct (bb_raw b pk scc) as [r|] eqn:Er.
   2:{ cbn. constructor; cbn; auto. apply Forall_sm_del. exact Httl. }
   destruct (Z.eqb_spec (rexp r) exp) as [Ee|Ee]; cbn [negb].
@@ -185,6 +215,7 @@ Proof.
     + apply lex_eqb_neq in E1. rewrite raw_del_other by (auto; congruence). exact Hb.
   - apply Forall_sm_del. exact Httl.
   - apply del_row_sorted. exact Hbs.
+  - intros pk' k r' Hk. apply raw_del_cases in Hk; auto. eapply Hbk; eauto.
 Qed.
 
 Lemma bnow_remove_key b tk e : bnow (bb_remove_key b tk e) = bnow b.
